@@ -44,6 +44,11 @@ CHECKS.update({
    "Every template requested (also while block-assembler updates are still queued, right after reorgs, with uncles/proposals/commits) is sealed and imported by the same node: it must be accepted and become the tip when it names the tip, transactions parents-first; the reference model re-derives epoch, reward, DAO, chain root, window and uncle rules for each. Templates naming a stale parent are only stored as side blocks; they are counted as not verified, never as passes."),
 })
 
+CHECKS["C17"] = dict(engine="simstruct", category="exploration", design_ref="§8 C17, §5 E-STRUCT",
+   technique="deterministic simulation of operation histories on the real OrphanBlockPool, InflightBlocks (simulated clock), HeaderMap (simulator-placed spills, real sled tier) and skip-list ancestor/locator lookup against trivial reference models; bounded-exhaustive for short sequences, seeded random beyond",
+   text="Each structure is driven by seeded operation sequences and compared with a map/set/parent-walk model after every operation; spills of the header map are simulator decisions placed between operations, request time-outs run on the simulated clock; all operation sequences up to a small length are enumerated, longer ones sampled. Oracles are one-sided exactly where the code is free (which peers prune evicts, release of non-leaders).",
+   note="Real structures through verif-hooks re-exports; concurrent access to a structure is not explored (the property places spills between operations); OrphanBlockPool::get_block is not covered.")
+
 NA = {
  "C15": "pure encode/decode and hash functions of one value: no schedule, clock, fault or interleaving for a simulator to own (DESIGN.md §8 C15)",
 }
@@ -82,6 +87,7 @@ def main():
         },
         "engines": [
             {"name": "simfrz", "path": "/verif/sim/simfrz", "serves_properties": ["C09"], "kind_free_text": "in-process deterministic simulation of freezer files with crash-state construction"},
+            {"name": "simstruct", "path": "/verif/sim/simstruct", "serves_properties": ["C17"], "kind_free_text": "in-process deterministic simulation of sync bookkeeping structures against reference models"},
             {"name": "simnode", "path": "/verif/sim/simnode", "serves_properties": [p for p in CHECKS if CHECKS[p]["engine"] == "simnode"], "kind_free_text": "one real node (RocksDB, Shared, chain stages, verification) per OS process under a seeded step scheduler with a reference chain model; restarts and crashes are new OS processes on the same directories"},
         ],
         "checks": checks,
